@@ -739,9 +739,13 @@ def _collapse_twins(x):
                 props = dict(b["properties"])
                 for k, ps in props.items():
                     if k in tags or not isinstance(ps, dict) or "$ref" in ps: continue
-                    if ps.get("type") not in ("object", "array") and "enum" not in ps and "properties" not in ps: continue
+                    # the in-line schemas for which typify makes a NAMED type (`<Enum><Member>`): objects, enumerations, constrained
+                    # strings; arrays / tuples for the types of their elements
+                    if not (ps.get("type") in ("object", "array") or "enum" in ps or "properties" in ps or
+                            (ps.get("type") == "string" and any(k in ps for k in ("minLength", "maxLength", "pattern")))): continue
                     if k in first and json.dumps(first[k], sort_keys=True) != json.dumps(ps, sort_keys=True):
-                        props[k] = first[k]; changed = True
+                        # (the later member keeps its own `default`: it is that value which is checked against the first one's type)
+                        props[k] = dict({kk: vv for kk, vv in first[k].items() if kk != "default"}, **({"default": ps["default"]} if "default" in ps else {})); changed = True
                     first.setdefault(k, ps)
                 nbs.append(dict(b, properties=props))
             out[comb] = nbs
